@@ -284,7 +284,7 @@ func TestC30(t *testing.T) {
 	rec = ev.New("C30", "exploration",
 		"corpus_exact: every statement of the corpus as it stands (complete): ~155 statements written after sql.y (every top-level command of the grammar - SELECT/UNION/WITH/STREAM, INSERT/REPLACE/UPDATE/DELETE, SET, transactions, USE, SHOW, CREATE/ALTER/RENAME/DROP/TRUNCATE/ANALYZE/FLUSH, vschema DDL, EXPLAIN/DESCRIBE/REPAIR/OPTIMIZE/LOCK - and every OctoSQL extension) plus every string literal of parser/sqlparser/*_test.go, every quoted query of tests/scenarios/**/*.in and of README.md that the parser accepts (harvested at start; absent files tolerated). "+
 			"grammar: statements from a text-producing grammar generator (depth <= 3, random keyword case, optional blanks): SELECT [DISTINCT] items (expr [AS] alias / 'string alias', *, t.*, expr->*) FROM table refs (names, paths like ./f.json and a/b.csv, quoted names, aliases, index hints, subqueries, parenthesised lists, table valued functions with name=>expr / name=>TABLE(ref) / name=>DESCRIPTOR(col) arguments and [AS] alias, [LOOKUP|STREAM] [INNER|CROSS] JOIN, LEFT/RIGHT [OUTER]/OUTER JOIN, NATURAL joins, STRAIGHT_JOIN, ON / USING), WHERE, GROUP BY, HAVING, TRIGGER lists (COUNTING e, ON WATERMARK, ON END OF STREAM, AFTER DELAY e), ORDER BY, LIMIT forms, WITH (1-2 CTEs), UNION forms; expressions: literals (ints beyond int64, floats, strings with quotes/backslashes/tab/newline, hex, bit, ?), columns with qualifiers, arithmetic/bit operators, unary - + ~ !, tuples, subqueries, INTERVAL e unit, function calls (DISTINCT, *), e[e], e::type incl. [] and {}, e->field, CASE, CAST/CONVERT, COLLATE, keyword functions, AND/OR/NOT, IS ..., comparisons, [NOT] IN (list|subquery|::), [NOT] LIKE [ESCAPE], ~ ~* !~ !~*, [NOT] REGEXP, [NOT] BETWEEN, EXISTS. "+
-			"mutations: 1-3 token-level edits (delete, duplicate, swap, replace by a random token or by one of the same class, insert, splice a stretch of another statement, delete a stretch) of a corpus statement or a generated one, re-joined with or without blanks. Inputs that sqlparser.Parse rejects are discarded (counted in `discarded`). "+
+			"corpus_case_exact: every corpus statement with all its words (keywords and identifiers; quoted names, strings, comments untouched) in UPPER, lower, aLtErNaTiNg and Title case (complete); case_variants: a corpus statement (2/3) or a generated one (1/3) with one case style for the statement or an independently drawn style per word - keywords are case-insensitive, so these are statements the parser must treat alike, and the oracle is the same round trip. mutations: (a quarter of the bases re-cased first) 1-3 token-level edits (delete, duplicate, swap, replace by a random token or by one of the same class, insert, splice a stretch of another statement, delete a stretch) of a corpus statement or a generated one, re-joined with or without blanks. Inputs that sqlparser.Parse rejects are discarded (counted in `discarded`). "+
 			"oracle: s2 = String(Parse(s1)) must parse; Parse(s2) must equal Parse(s1) under a reflection walk over every field (exported or not) that ignores only fields named Metadata (analyzer placeholders), ColIdent's lowered cache and blank fields, and identifies nil and empty slices; and String(Parse(s2)) == s2. A panic while printing is a violation. "+
 			"non-trivial: the statement uses >= 1 OctoSQL extension (by token kind: TRIGGER and trigger kinds, =>, DESCRIPTOR, LOOKUP, ->, ->*, ::, [], {}, [, ~ ~* !~ !~*, WITH; or by node: STREAM JOIN, OUTER JOIN, TABLE() argument, ON END OF STREAM). distinct = sequence of token kinds of the input",
 		"sqlparser.Parse is the acceptance criterion (it also accepts partially parsed DDL, as octosql's callers get it)",
@@ -299,6 +299,24 @@ func TestC30(t *testing.T) {
 			}
 		}
 	}, c30Prop)
+	ev.Enumerate(t, rec, "corpus_case_exact", func(yield func(c30Case) bool) {
+		for _, s := range c.all {
+			for style := 0; style < 4; style++ {
+				if v := recaseWith(s, func(int) int { return style }); v != s && !yield(c30Case{v}) {
+					return
+				}
+			}
+		}
+	}, c30Prop)
+	ev.Check(t, rec, "case_variants", ev.N(60000, 900000), func(t *rapid.T) c30Case {
+		var base string
+		if rapid.IntRange(0, 2).Draw(t, "from_generator") == 0 {
+			base = GenStatement(t)
+		} else {
+			base = c.all[rapid.IntRange(0, len(c.all)-1).Draw(t, "base")]
+		}
+		return c30Case{recase(t, base)}
+	}, c30Prop)
 	ev.Check(t, rec, "grammar", ev.N(120000, 1800000), func(t *rapid.T) c30Case {
 		return c30Case{GenStatement(t)}
 	}, c30Prop)
@@ -310,6 +328,9 @@ func TestC30(t *testing.T) {
 			base = c.all[rapid.IntRange(0, len(c.all)-1).Draw(t, "base")]
 		}
 		other := c.all[rapid.IntRange(0, len(c.all)-1).Draw(t, "other")]
+		if rapid.IntRange(0, 3).Draw(t, "recase") == 0 {
+			base = recase(t, base)
+		}
 		return c30Case{mutate(t, base, other)}
 	}, c30Prop)
 }
